@@ -515,6 +515,25 @@ class Interp(object):
     def stmt_FunctionDef(self, s, frame):
         frame.locals[s.name] = Closure(s, frame, None, s.name)
 
+    def stmt_ClassDef(self, s, frame):
+        # a helper class defined inside a function: built natively (its methods are not interpreted)
+        ns = {}
+        mod = ast.Module(body=[s], type_ignores=[])
+        ast.fix_missing_locations(mod)
+        exec(compile(mod, '<class-in-function>', 'exec'), {}, ns)
+        frame.locals[s.name] = ns[s.name]
+
+    def stmt_With(self, s, frame):
+        for item in s.items:
+            ctx = self.eval(item.context_expr, frame)
+            v = self.enter_context(ctx, item)
+            if item.optional_vars is not None:
+                self.assign(item.optional_vars, v, frame)
+        self.exec_block(s.body, frame)
+
+    def enter_context(self, ctx, item):
+        raise Unsupported('with statement on a non-modelled context manager')
+
     def stmt_Try(self, s, frame):
         try:
             try:
